@@ -529,7 +529,8 @@ def main(rep, tier, seed):
             nc, nh, note = gen_search(rep, binpath, items, outl, broken)
             search.update(generated_vs_crate_failing=nc, generated_vs_hand_failing=nh, note=note)
             found = found or bool(nc) or bool(nh)
-        if broken["stage"] == "index_overflow":
+        if broken["stage"] == "index_overflow" or (broken["stage"] in ("equivalence", "proof") and not found):
+            # (the 64-bit lemmas come after the equivalence in the build: when that one broke they were not attempted)
             hits, note = ck_search(rep, broken)
             search.update(scaled_down_overflow_witnesses=(len(hits) if hits is not None else None), note=note)
             found = found or bool(hits)
